@@ -12,6 +12,7 @@ import Proofs.KernelReal
 import Proofs.KernelRealDec
 import Proofs.KernelWrap
 import Proofs.EncSpec
+import Proofs.KernelSort
 
 namespace Asn1.C03
 
@@ -140,6 +141,20 @@ example :
       (.seq [.seqOf [.int 5], .str [9]])).toOption =
         some [0x30, 0x80, 0xA0, 0x80, 0x30, 0x80, 0x02, 0x01, 0x05, 0, 0, 0, 0, 0x04, 0x01, 0x09, 0, 0] := by
   decide +kernel
+
+/-- **SET OF order at the source level** (X.690 11.6): `SetOfEncoder.encodeValue` of cer/encoder.py - the CER and DER encoder
+    of SET OF - translated from the working tree by gen/py2lean.py (`GenK.setOfSort`; the element encodings are its
+    argument): for every list of element encodings the source writes them in ascending order of their octets padded with
+    zeros to the longest one, ties in their original order - the encoder model's `sortSetOfChunks`, which
+    `der_encoder_is_x690` identifies with the X.690 order -/
+theorem source_setof_order_is_model (cs : List Bytes) :
+    GenK.setOfSort (cs.map Kernels.bytesInts) = .ok (Kernels.bytesInts (sortSetOfChunks cs).flatten, true, true) :=
+  Kernels.setOfSort_kernel cs
+
+/-- (no hypotheses to meet; the ordering of concrete lists - `02 01 03`, `02 01 01`, `04 00`, `02 02 01 00` come out as
+    `02 01 01`, `02 01 03`, `02 02 01 00`, `04 00` - is run through the compiled driver against the real method in every
+    check: `List.mergeSort` is defined by well-founded recursion and does not reduce in the kernel) -/
+example : GenK.setOfSort [[2, 1, 3]] = .ok ([2, 1, 3], true, true) := by rfl
 
 /-! ### the source itself: the octet kernels translated from /repo on this run (`Asn1/GenKernels.lean`)
 
